@@ -475,6 +475,15 @@ def rule_G(ctx):
             fail(op, 'selection', 'the result holds exactly the designated observations, in the original order',
                  dict(case, result=None if got is None else [g[0] for g in got], expected=want))
             return
+        # an observation of the result is either the source's own observation or a copy that shares nothing mutable with it
+        src_by_tag = {o.fields.get('k'): o for o in src.fields['_Track__POINTS']} if isinstance(src, orders.Obj) else {}
+        for o in res.fields['_Track__POINTS']:
+            so = src_by_tag.get(o.fields.get('k')) if isinstance(o, orders.Obj) else None
+            if so is not None and so is not o:
+                shared = [nm for nm in ('features', 'position', 'timestamp') if o.fields.get(nm) is so.fields.get(nm) and isinstance(o.fields.get(nm), (list, orders.Obj))]
+                if shared:
+                    fail(op, 'alias', 'an observation copied into the result shares no list or object with the observation it was copied from (a later change of one must not show in the other)',
+                         dict(case, observation=o.fields.get('k'), **{'shared members': shared}))
         by = {b[0]: b for b in before}
         for g in got:
             if g[0] in by and (g[1], g[2], g[3]) != by[g[0]][1:]:
@@ -490,7 +499,8 @@ def rule_G(ctx):
                 if res.fields[dk] is src.fields[sk]:
                     fail(op, 'table-alias', 'the result has its own copy of the feature table (a later feature on one track must not appear on the other)', case)
 
-    TIMES = {0: [[]], 1: [[5]], 2: [[5, 7], [5, 5], [7, 5]], 3: [[5, 7, 9], [5, 5, 9], [9, 7, 5], [5, 9, 7]], 4: [[1, 3, 5, 7], [1, 3, 3, 7]], 5: [[1, 3, 5, 7, 9]]}
+    # (odd instants are whole seconds, even ones half seconds: [6, 5] and [1, 4, 3, 2] are out of order INSIDE a second)
+    TIMES = {0: [[]], 1: [[5]], 2: [[5, 7], [5, 5], [7, 5], [6, 5]], 3: [[5, 7, 9], [5, 5, 9], [9, 7, 5], [5, 9, 7], [7, 6, 5]], 4: [[1, 3, 5, 7], [1, 3, 3, 7], [1, 4, 3, 2]], 5: [[1, 3, 5, 7, 9]]}
     if ctx.tier == 'thorough':
         TIMES.update({6: [[1, 3, 5, 7, 9, 11], [1, 3, 3, 3, 9, 11], [11, 9, 7, 5, 3, 1]], 7: [[1, 2, 3, 4, 5, 6, 7], [7, 7, 1, 1, 4, 4, 4]], 8: [[1, 2, 3, 4, 5, 6, 7, 8]]})
     for n, tlists in sorted(TIMES.items()):
